@@ -96,6 +96,13 @@ def structural_trees():
         {"p": "d2", "k": "bind", "to": "d1"}])
     t["bind_mount_plain"] = (["d1", "d2"], [], t["bind_mount"][2])
     t["bind_mount_copy"] = (["d1", "d2", "d3"], ["-H"], t["bind_mount"][2] + [{"p": "d3/g", "k": "file", "c": lit("B")}])
+    # a transform program that is killed by a signal on some (different) files before it writes anything: such files
+    # have no transformed content - they are not duplicates of each other
+    t["transform_dies"] = (["r"], ["--transform", "fcv-tr dieon"], [
+        {"p": "r/a/good1", "k": "file", "c": lit("well-formed")}, {"p": "r/b/good2", "k": "file", "c": lit("well-formed")},
+        {"p": "r/a/bad1", "k": "file", "c": lit("CORRUPT one")}, {"p": "r/b/bad2", "k": "file", "c": lit("CORRUPT two, longer")},
+        {"p": "r/b/bad3", "k": "file", "c": lit("CORRUPT 333")}])
+    t["transform_dies_in"] = (["r"], ["--transform", "fcv-tr dieon $IN"], t["transform_dies"][2])
     # overlapping / repeated input paths given on standard input, every path counted separately (--match-links):
     # a file reached twice is still ONE path - it may not be reported as a duplicate of itself
     t["stdin_overlap"] = (["r1", "r1/d", "r1"], ["-H"], [
@@ -330,6 +337,8 @@ def evaluate(case):
         target = os.path.join(sc.root, "moved")
         tzenv = {"TZ": case["tz"]} if case.get("tz") else None
         genv = dict(tzenv or {})
+        if case["tree"].startswith("s:transform_dies"):
+            genv["FCV_TR_FAIL_PREFIX"] = "CORRUPT"
         if case["tree"] == "s:prefix_window":
             genv["FCLONES_VERIF_DISK_KIND"] = "unknown"
         report = D.make_report(sc, ["--min", "0"] + case["gargs"], case["roots"], fmt=case["fmt"], env_extra=genv or None,
